@@ -2,10 +2,10 @@
 """Copies behaviour-preserving refactoring patches written by an independent sub-agent from /tmp/ref/<group>/_ref/NN.diff into
 selftest/patches/ref-<group>-NN.diff and registers each as a benign variant (must stay silent) for the given properties.
 usage: store_benign.py R01 C01 C08 [C11 ...]"""
-import json, shutil, sys
+import json, os, shutil, sys
 from pathlib import Path
 g, props = sys.argv[1], sys.argv[2:]
-src = Path('/tmp/ref') / g / '_ref'
+src = Path(os.environ.get('REF_BASE', '/tmp/ref')) / g / '_ref'
 dst = Path('/verif/selftest/patches')
 dst.mkdir(exist_ok=True)
 mp = Path('/verif/selftest/mutants.json')
